@@ -280,6 +280,13 @@ pub fn hard_numbers(heavy: bool) -> Vec<String> {
 		t.pop();
 		out.push(format!("-{t}49999999{ex}"));
 	}
+	// the same ties written out positionally (more than a thousand characters, no exponent), and just above / below
+	for &m in sub_m.iter().take(2) {
+		let mid = plain(&midpoint_above(m, -1074));
+		out.push(mid.clone());
+		out.push(format!("{mid}0000001"));
+		out.push(format!("-{}4999", &mid[..mid.len() - 1]));
+	}
 	// long spellings of subnormals that are not ties (the exact value of a subnormal plus a little)
 	if heavy {
 		out.push(format!("{}", exact_decimal(0x3_1234_5678_9ABC, -1074)));
